@@ -29,6 +29,7 @@ type Program struct {
 	errs      []string
 	fcPkg     map[*FuncContract]*ssa.Package
 	constGlobals map[string]bool
+	audits    []*auditRef
 }
 
 type lemmaRef struct {
@@ -190,6 +191,9 @@ func Load(ls LoadSpec) (*Program, error) {
 			}
 			for _, fc := range sf.Funcs {
 				p.fcPkg[fc] = sp
+			}
+			for _, a := range sf.Audits {
+				p.audits = append(p.audits, &auditRef{a, sp})
 			}
 		}
 	}
